@@ -9,7 +9,7 @@ rm -rf "$wt" "$out"; mkdir -p /tmp/mut "$out"
 git -C /repo worktree add --detach "$wt" HEAD -q || exit 3
 if ! git -C "$wt" apply "$patch"; then echo "PATCH DOES NOT APPLY"; git -C /repo worktree remove --force "$wt"; exit 3; fi
 cd /verif
-VERIF_REPO=$wt VERIF_OUT=$out timeout 3600 ./bin/vcheck --property "$id" --tier "$tier" > "$out/log.txt" 2>&1
+VERIF_REPO=$wt VERIF_OUT=$out timeout 3600 ./bin/vcheck --property "$id" --tier "$tier" ${VCHECK_ARGS:-} > "$out/log.txt" 2>&1
 rc=$?
 grep -a -E "^VIOLATION|^KNOWN-FINDING|^INCONCLUSIVE|^SUMMARY" "$out/log.txt" | cut -c1-260 | sort | uniq -c | sort -rn | head -12
 echo "RESULT $id $(basename $(dirname $patch)) exit=$rc"
